@@ -675,7 +675,17 @@ func (g *G) strLit() ref.Expr {
 	if g.R.P(1, 6) {
 		p = EscapeStrings
 	}
-	return lit(ref.Str(g.pick(p)))
+	s := g.pick(p)
+	if !g.O.Astral {
+		// (characters beyond U+FFFF count differently in the two backends under length-sensitive directives)
+		for _, c := range s {
+			if c > 0xFFFF {
+				s = g.pick(EscapeStrings[:6])
+				break
+			}
+		}
+	}
+	return lit(ref.Str(s))
 }
 
 // ---- template bodies
